@@ -11,6 +11,17 @@ case "$id" in
   C10|C11|C33) kind=race ;;
   *) kind=plain ;;
 esac
+if [ "$id" = C17 ]; then
+  # C17 owns Go's map iteration order inside base/dep: rewrite every range over a map in a
+  # scratch copy and compile it in with -overlay (regenerated from /repo's tree on every run)
+  ov=$(mktemp -d "${TMPDIR:-/tmp}/verif-c17-overlay.XXXXXX") || exit 2
+  trap 'rm -rf "$ov"' EXIT
+  go run ./tools/maprange -pkg github.com/cosmos72/gomacro/base/dep -out "$ov" >&2 || { echo "BUILD-FAILURE (maprange)" >&2; exit 2; }
+  mkdir -p bin
+  go test -c -tags verif -overlay "$ov/overlay.json" -o bin/simcheck-c17 ./cmd/simcheck || { echo "BUILD-FAILURE (overlay)" >&2; exit 2; }
+  bin/simcheck-c17 -test.run='^TestSim$' -test.timeout=0 -sim.cmd=run -sim.prop="$id" -sim.tier="$tier" 2>&1
+  exit $?
+fi
 ./build.sh $kind || exit 2
 bin=bin/simcheck
 [ $kind = race ] && bin=bin/simcheck-race
